@@ -126,6 +126,7 @@ structure Sim where
   ids : Array Id
   st : Array (Array Status)
   widgetOn : Bool
+  lateServe : Bool := false
   widgetMapped : Bool
   cur : List (Nat × Nat) := []     -- object → version
   ever : List Nat := []
@@ -190,7 +191,7 @@ def Sim.stepScript (s : Sim) (step : Json) : Except String Sim := do
     let existed := s.cur.any (fun p => p.1 == i)
     let isCrd := isCRD s.ids[i]!
     let s1 := { s with cur := (s.cur.filter (fun p => p.1 != i)) ++ [(i, v)], ever := if s.ever.contains i then s.ever else s.ever ++ [i],
-                       widgetMapped := s.widgetMapped || isCrd }
+                       widgetMapped := s.widgetMapped || (isCrd && (!s.lateServe || existed)) }
     if !s.watching then return s1
     return s1.notify i (if existed then .update else .add) (s1.obj i v)
   | "del" =>
@@ -243,6 +244,7 @@ def handleWatcher : Handler := fun i o => do
   let cancelAt ← jint i "cancelAt"
   let strict ← jbool i "strict"
   let widgetOn ← jbool i "widgetOn"
+  let lateServe := jboolD i "lateServe" false
   let scopeS ← jstr i "scope"
   let allow := watched.map (fun k => ids[k]!)
   let direct := jopt i "direct"
@@ -251,7 +253,7 @@ def handleWatcher : Handler := fun i o => do
   let full := cancelAt < 0
   let upto := if full then steps.length else cancelAt.toNat
   let hasWatchStep := (steps.take upto).any (fun s => match s.getArr? with | .ok a => a[0]! == Json.str "watch" | _ => false)
-  let mut sim : Sim := { cfg := cfg, ids := ids, st := st.toArray, widgetOn := widgetOn, widgetMapped := widgetOn }
+  let mut sim : Sim := { cfg := cfg, ids := ids, st := st.toArray, widgetOn := widgetOn, widgetMapped := widgetOn, lateServe := lateServe }
   for s in steps.take upto do
     sim ← sim.stepScript s
   if full && !hasWatchStep then
@@ -320,7 +322,7 @@ def handleWatcher : Handler := fun i o => do
            nontrivial := nMut ≥ 2,
            tags := [if sc = .root then "watcher:root" else "watcher:ns", if full then "watcher:full" else "watcher:cancelled",
                     if strict then "watcher:strict" else "watcher:racing", if hasNs then "watcher:ns-object" else "watcher:no-ns-object",
-                    if hasCrd then "watcher:crd" else "watcher:no-crd", if direct.isSome && direct != some Json.null then "watcher:direct" else "watcher:Watch",
+                    if hasCrd then (if jboolD i "lateServe" false then "watcher:crd-late-established" else "watcher:crd") else "watcher:no-crd", if direct.isSome && direct != some Json.null then "watcher:direct" else "watcher:Watch",
                     s!"watcher:restarts{min sim.restarts 4}", s!"watcher:errors{errors}"] ++
              (match jint o "nilErrors" with | .ok n => if n > 0 then ["watcher:nil-error-event"] else [] | _ => []),
            region := region }
